@@ -51,7 +51,7 @@ class DynamicEnumMeta(EnumMeta):
                 if raise_on_unrecognized:
                     raise e from None
                 else:
-                    extend_enum(cls, f'{cls.UNRECOGNIZED_PREFIX}_{value}', value)
+                    extend_enum(cls, f'{cls.UNRECOGNIZED_PREFIX}_{int(value)}', value)
                     return super().__call__(value, *args, **kwargs)
 
     def from_string(self, name, case_insensitive=False):
